@@ -129,10 +129,8 @@ func (k Keeper) ValidateValidatorBeginUnstaking(ctx sdk.Ctx, validator types.Val
 	if !validator.IsStaked() {
 		return types.ErrValidatorStatus(k.codespace)
 	}
-	// sanity check
-	if validator.StakedTokens.LT(sdk.NewInt(k.MinimumStake(ctx))) {
-		panic("should not happen: validator trying to begin unstaking has less than the minimum stake")
-	}
+	// (no minimum-stake condition here either: once governance raises the minimum above a staked
+	// validator's stake, leaving is the one thing that validator must still be able to do)
 	return nil
 }
 
@@ -161,10 +159,9 @@ func (k Keeper) ValidateValidatorFinishUnstaking(ctx sdk.Ctx, validator types.Va
 	if !validator.IsUnstaking() {
 		return types.ErrValidatorStatus(k.codespace)
 	}
-	// sanity check
-	if validator.StakedTokens.LT(sdk.NewInt(k.MinimumStake(ctx))) {
-		return types.ErrValidatorStatus(k.codespace)
-	}
+	// (no minimum-stake condition here: a mature validator gets back whatever stake it has left, also
+	// when governance raised the minimum above it while it was unstaking - refusing would leave it
+	// unstaking for ever with its queue entry gone and its tokens locked in the pool)
 	return nil
 }
 
